@@ -500,3 +500,42 @@ def debug_buf_groups(tags=None, tier="quick"):
                               "loops of emit_print are bounded by the literal / 16 hex digits / 7-character strings and are unwound with unwinding assertions",
                         min_obligations=20, functions=["emit_print"]))
     return gs
+
+
+# ---------------------------------------------------------------- notes
+NOTE_S = ["harness/note/note_all.c", "rg/vp_rg.c", "rg/vp_note.c", "rg/vp_amu.c", "rg/vp_clock.c", "rg/vp_stubs.c", "repo:platform/posix/src/time_rep.c"]
+NOTE_DEF = ["VP_RG_NOTE", "VP_RG_WAKER", "VP_WK_LOCKED", "VP_ABSTRACT_MU", "VP_ABSTRACT_QUEUE"]
+NOTE_ASSUMED = ["nsync_mu_lock/unlock/trylock and nsync_mu_wait on note_mu obey the ghost contracts of the mutex API (rg/vp_amu.c; C01, C05, C06)",
+                "note_notify_child (recursive, walks the child list) is replaced by its contract in the unbounded proofs of notify / nsync_note_notify / "
+                "nsync_note_notified_deadline_; its real body is exercised by the bounded tree group only",
+                "the constructor's malloc either fails or returns the (pre-registered, private) storage of the new note (harness/note/note_all.c)",
+                "rely/guarantee soundness (paper argument)"]
+
+
+def note_groups(tags=None, which=None):
+    def G(name, fn, entry, rep=(), **kw):
+        return Group(name=name, srcs=NOTE_S, entry=entry, enforce=fn, replace=list(rep), timeout=600, unwind=60, object_bits=10,
+                     defines=NOTE_DEF, tags=tags, assumed=NOTE_ASSUMED, min_obligations=kw.pop("min_obligations", 100), **kw)
+    gs = [G("note.new", "nsync_note_new", "h_note_new", ["nsync_note_is_notified"]),
+          G("note.notify_static", "notify", "h_notify", ["note_notify_child"]),
+          G("note.notified_deadline", "nsync_note_notified_deadline_", "h_notified_deadline", ["notify"]),
+          G("note.is_notified", "nsync_note_is_notified", "h_is_notified", ["nsync_note_notified_deadline_"]),
+          G("note.notify", "nsync_note_notify", "h_note_notify", ["nsync_note_notified_deadline_", "notify"]),
+          G("note.expiry", "nsync_note_expiry", "h_note_expiry"),
+          G("note.enqueue", "note_enqueue", "h_note_enqueue"),
+          G("note.dequeue", "note_dequeue", "h_note_dequeue", ["nsync_note_notified_deadline_"]),
+          G("note.wait", "nsync_note_wait", "h_note_wait", ["nsync_wait_n"])]
+    if which is not None:
+        gs = [g for g in gs if g.name in which]
+    return gs
+
+
+def note_tree_groups(tags=None):
+    S = ["harness/note/note_tree.c", "rg/vp_rg.c", "rg/vp_note.c", "rg/vp_amu.c", "rg/vp_clock_frozen.c", "rg/vp_stubs.c", "repo:internal/dll.c",
+         "repo:platform/posix/src/time_rep.c"]
+    D = ["VP_SEQUENTIAL", "VP_RG_NOTE", "VP_ABSTRACT_MU", "VP_REAL_SEM"]
+    return [Group(name="note.tree." + h[7:], srcs=S, entry=h, no_dfcc=True, kind="bounded", timeout=900, unwind=8, defines=D, object_bits=10, tags=tags,
+                  bound="tree R -> {C1 -> {G}, C2} (depth 3, <= 2 children per node) built by the real nsync_note_new, five concrete deadline assignments "
+                        "(parent earlier / later / equal / none), sequential execution of the real note.c + dll.c with the clock frozen",
+                  min_obligations=100, functions=["note_notify_child", "nsync_note_free", "nsync_note_notify", "nsync_note_new", "nsync_note_expiry"])
+            for h in ("h_tree_notify_middle", "h_tree_notify_root", "h_tree_free_middle", "h_tree_born_notified")]
